@@ -194,6 +194,74 @@ def rich_case(full):
     return h
 
 
+def album_case(max_strips):
+    """objects whose alternative mapping builds mapped helper objects on the fly (nothing else holds them)"""
+
+    def h(ctx):
+        k = range(max_strips + 1)[ctx.choice("strips", max_strips + 1)]
+        strips = []
+        c = 0
+        for i in range(k):
+            n = range(3)[ctx.choice("len%d" % i, 3)]  # a concrete number
+            strips.append(M.Strip([10 * (c + j) for j in range(n)]))  # all values distinct; 0 included
+            c += n
+        root = M.Album(7, strips)
+        back, actual, expected = persist_and_reload(root, lambda dao: dao.AlbumDAO)
+        ctx.observe([s.values for s in strips])
+        ctx.note("nonempty", 1)
+        if back is None:
+            ctx.observe(actual)
+            return {"root-row-found": False}
+        v = {"restored-graph-isomorphic": [s.values for s in back.strips] == [s.values for s in strips] and back.number == 7}
+        if not v["restored-graph-isomorphic"]:
+            ctx.observe([s.values for s in back.strips])
+        # the helper objects are rows of their own: one Leaf row per value
+        v["one-row-per-object"] = actual.get("LeafDAO", 0) == c and actual.get("AlbumDAO", 0) == 1
+        if not v["one-row-per-object"]:
+            ctx.observe(actual)
+        return v
+
+    return h
+
+
+def streaming_case(max_n):
+    """several short-lived objects converted one after the other with ONE conversion state, then persisted together"""
+
+    def h(ctx):
+        from sqlalchemy import select
+        from sqlalchemy.orm import Session
+
+        from krrood.ormatic.dao import ToDAOState, to_dao
+
+        dao = ormgen.harness_dao()
+        engine = _engine(dao)
+        with engine.begin() as c:
+            for t in reversed(dao.Base.metadata.sorted_tables):
+                c.execute(t.delete())
+        n = 1 + range(max_n)[ctx.choice("n", max_n)]
+        kinds = [ctx.choice("kind%d" % i, 3) for i in range(n)]
+        st = ToDAOState()
+        daos = []
+        for i, kd in enumerate(kinds):
+            # the object is a temporary: after to_dao returns only the conversion state can keep it alive
+            daos.append(to_dao(M.Node(i, leaf=[None, M.Leaf(100 + i), M.SubLeaf(100 + i, i)][kd]), st))
+        with Session(engine) as s:
+            s.add_all(daos)
+            s.commit()
+        with Session(engine) as s2:
+            rows = sorted(s2.scalars(select(dao.NodeDAO)).all(), key=lambda r: r.tag)
+            got = []
+            for r in rows:
+                o = r.from_dao()
+                got.append((o.tag, None if o.leaf is None else (type(o.leaf).__name__, o.leaf.v)))
+        exp = [(i, None if kd == 0 else (["", "Leaf", "SubLeaf"][kd], 100 + i)) for i, kd in enumerate(kinds)]
+        ctx.observe(kinds, got)
+        ctx.note("nonempty", 1)
+        return {"every-object-is-restored-with-its-own-values": got == exp, "distinct-objects-distinct-daos": len({id(d) for d in daos}) == n}
+
+    return h
+
+
 def cases(tier, seed):
     ormgen.harness_dao()
     n = 2 if tier == "quick" else 3
@@ -210,6 +278,8 @@ def cases(tier, seed):
                 nm = "persist graph|%s|node0=%s,parent0=%d,ref0=%d" % ("alt-mapped Vec targets" if with_vecs else "Leaf/SubLeaf/SubSubLeaf targets", ["Node", "SubNode"][sub0], parent0 - 1, single0 - 1)
                 cs.append(Case(nm + "|n=%d" % n, graph_case(n, with_vecs, fixed, nseq), key=nm, validate=0, timeout=900 if tier == "quick" else 3000, max_paths=300000))
     cs.append(Case("persist rich scalars", rich_case(tier != "quick"), validate=0, timeout=900 if tier == "quick" else 3000))
+    cs.append(Case("persist helper objects built by an alternative mapping", album_case(2 if tier == "quick" else 3), key="album", validate=0, timeout=900))
+    cs.append(Case("persist short-lived objects converted with one state", streaming_case(3 if tier == "quick" else 4), key="streaming", validate=0, timeout=900))
     return cs
 
 
@@ -219,7 +289,7 @@ def describe(tier):
         rule="the C04 graph shapes (bounded symbolic choices, explored exhaustively) with scalar values from small ranges; every path creates a fresh in-memory sqlite "
         "database with krrood's create_engine, adds to_dao(root), commits, opens a NEW session, loads through the root's own DAO class or a DAO base class (a symbolic "
         "choice), calls from_dao and compares: graph isomorphism incl. classes (polymorphic loading), sharing, order of collections, None positions, equal values, and "
-        "row count per table == number of distinct objects of that class. Distinct = distinct shape vectors; non-trivial = every path persists at least one object",
+        "row count per table == number of distinct objects of that class. Plus: objects whose alternative mapping builds mapped helper objects on the fly, and several short-lived objects converted one after the other with one conversion state (object ids of dead temporaries are reused by CPython). Distinct = distinct shape vectors; non-trivial = every path persists at least one object",
         bounds=dict(nodes=n, pool=2, scalar_values="2-3 values per field (incl. 0, '', False, empty list)", backend="sqlite in memory"),
         outside=["other database back ends", "symbolic reasoning about SQLAlchemy's unit of work or sqlite (executed, not encoded)", "graphs of more than %d nodes" % n],
         assumptions=["rows are identified by distinct tag values", "the solver's role here is exhaustive, constraint-pruned enumeration of a finite shape space"],
